@@ -73,14 +73,14 @@ func (w *World) checkStuckLocked() {
 // End is one end of a duplex connection.
 type End struct {
 	ReadChunk int // > 0: Read returns at most this many bytes per call
-	w       *World
-	peer    *End
-	q       []byte // bytes waiting to be read by this end
-	rclosed bool   // reading side terminated
-	rerr    error
-	closed  bool // Close() called on this end
-	local   net.Addr
-	remote  net.Addr
+	w         *World
+	peer      *End
+	q         []byte // bytes waiting to be read by this end
+	rclosed   bool   // reading side terminated
+	rerr      error
+	closed    bool // Close() called on this end
+	local     net.Addr
+	remote    net.Addr
 
 	// Hook, if set, is called (outside the world lock) with every write made
 	// on this end; it returns the byte slices actually delivered to the peer.
@@ -100,9 +100,16 @@ type End struct {
 	StallAt   int
 	StallKind string // "", "read", "write": restricts which kind is counted
 	Stalled   chan struct{}
-	CloseN    int
-	ReadCalls int
-	waiting   bool
+	// AfterOp >= 0: OnAfterOp is called (synchronously, by the goroutine doing the I/O, outside the
+	// world lock) right after the op with that index has completed successfully - i.e. between two
+	// I/O steps of whatever is using this end. Same numbering as StallAt.
+	AfterOp    int
+	OnAfterOp  func()
+	CloseN     int
+	ReadCalls  int
+	waiting    bool
+	curOp      int
+	lastReadOp int // index of the op served by the read in progress (one reader per end)
 }
 
 func (e *End) unwaitLocked() {
@@ -118,8 +125,8 @@ func Pipe(w *World, aAddr, bAddr string) (*End, *End) {
 	if w == nil {
 		w = NewWorld(0)
 	}
-	a := &End{w: w, StallAt: -1}
-	b := &End{w: w, StallAt: -1}
+	a := &End{w: w, StallAt: -1, AfterOp: -1}
+	b := &End{w: w, StallAt: -1, AfterOp: -1}
 	a.peer, b.peer = b, a
 	a.local, a.remote = Addr{"tcp", aAddr}, Addr{"tcp", bAddr}
 	b.local, b.remote = Addr{"tcp", bAddr}, Addr{"tcp", aAddr}
@@ -131,11 +138,13 @@ func Pipe(w *World, aAddr, bAddr string) (*End, *End) {
 
 func (e *End) stallIfDue(kind string) bool {
 	// called with world lock held; returns true if the op must fail (closed)
+	e.curOp = -1
 	if e.StallKind != "" && e.StallKind != kind {
 		return false
 	}
 	idx := e.Ops
 	e.Ops++
+	e.curOp = idx
 	if idx != e.StallAt {
 		return false
 	}
@@ -149,6 +158,15 @@ func (e *End) stallIfDue(kind string) bool {
 }
 
 func (e *End) Read(p []byte) (int, error) {
+	n, err := e.read(p)
+	if err == nil && n > 0 && e.AfterOp >= 0 && e.lastReadOp == e.AfterOp && e.OnAfterOp != nil {
+		e.lastReadOp = -1
+		e.OnAfterOp()
+	}
+	return n, err
+}
+
+func (e *End) read(p []byte) (int, error) {
 	w := e.w
 	w.mu.Lock()
 	defer w.mu.Unlock()
@@ -156,11 +174,14 @@ func (e *End) Read(p []byte) (int, error) {
 	if len(p) == 0 {
 		return 0, nil
 	}
-	if e.StallAt >= 0 {
+	myOp := -1
+	if e.StallAt >= 0 || e.AfterOp >= 0 {
 		if e.stallIfDue("read") {
 			return 0, ErrClosed
 		}
+		myOp = e.curOp
 	}
+	e.lastReadOp = myOp
 	for len(e.q) == 0 {
 		if e.closed {
 			return 0, ErrClosed
@@ -201,11 +222,13 @@ func (e *End) Write(p []byte) (int, error) {
 		w.mu.Unlock()
 		return 0, ErrClosed
 	}
-	if e.StallAt >= 0 {
+	myOp := -1
+	if e.StallAt >= 0 || e.AfterOp >= 0 {
 		if e.stallIfDue("write") {
 			w.mu.Unlock()
 			return 0, ErrClosed
 		}
+		myOp = e.curOp
 	}
 	if e.peer.closed || w.stuck {
 		w.mu.Unlock()
@@ -232,6 +255,9 @@ func (e *End) Write(p []byte) (int, error) {
 	}
 	w.cond.Broadcast()
 	w.mu.Unlock()
+	if myOp >= 0 && myOp == e.AfterOp && e.OnAfterOp != nil {
+		e.OnAfterOp()
+	}
 	return len(p), nil
 }
 
